@@ -40,6 +40,11 @@ def translate():
         st = json.load(open(os.path.join(COQ, 'Gen', 'extracted_status.json')))
     except Exception as e:
         st = {'status': {'__translator__': 'FAIL: %s' % e}, 'sources': {}}
+    rc3, out3 = sh([sys.executable, os.path.join(ROOT, 'py', 'translate_main.py')], env=dict(os.environ, PM_REPO=REPO))
+    try:
+        st['status'].update(json.load(open(os.path.join(COQ, 'Gen', 'mainflow_status.json')))['status'])
+    except Exception as e:
+        st['status']['main_sites'] = 'FAIL: %s' % e
     gen = [os.path.join(ROOT, 'py', 'gen_tables.py')]
     if os.path.exists(gen[0]):
         rc2, out2 = sh([PY] + gen, env=dict(os.environ, PM_REPO=REPO, PYTHONPATH=REPO,
